@@ -275,7 +275,7 @@ def main():
             guard="glass_easel_verif",
             enable="RUSTFLAGS='--cfg glass_easel_verif' (set in /verif/harness/.cargo/config.toml; the harness path-depends on /repo's crates)",
             baseline_off_cmd="cd /repo && cargo test --workspace --no-fail-fast --offline",
-            source_commits=["bbcb615", "d53265e", "7d9763f", "d283a3d", "b84591b", "058a579"],
+            source_commits=["bbcb615", "d53265e", "7d9763f", "d283a3d", "b84591b", "058a579", "e275c4d", "c794590", "6090cc9"],
             add_only=True,
         ),
         engines=[dict(name="lean4-model-proof", path="/verif/lean",
